@@ -1,5 +1,6 @@
 SPECIFICATION TraceSpec
 CONSTANTS Malformed = "strict"
+ ApiErr = "strict"
  Variant = "none"
 CONSTRAINT Mark
 POSTCONDITION Report
